@@ -210,6 +210,26 @@ def container_delegation(ctx):
                 ctx.bad(construct, f.node, f'{cname}.{meth} never calls its member datatype(s): nested values are not '
                         f'{"converted" if meth != "copy" else "copied"} by the member codec', f)
                 continue
+            if meth in ('export_value', 'import_value'):
+                # every value-returning exit goes through the member codec: a fast path that returns the elements as they are
+                # bypasses it for the member kinds whose transport form differs (scaled, blob, enum, nested containers)
+                callnodes = {id(c) for c, a in calls}
+                for r in [x for x in body_walk(f.node) if isinstance(x, ast.Return) and x.value is not None]:
+                    exprs = [r.value] + (origins(r.value, f.node) if isinstance(r.value, ast.Name) else [])
+                    through = any(id(x) in callnodes for e in exprs for x in ast.walk(e))
+                    if not through and isinstance(r.value, ast.Name):
+                        # a container built step by step: every element put into it went through the member call
+                        nm = r.value.id
+                        fills = [c.args[0] for c in calls_in(f.node) if call_attr(c) in ('append', 'extend', 'add') and isinstance(c.func.value, ast.Name)
+                                 and c.func.value.id == nm and c.args]
+                        fills += [x.value for x in body_walk(f.node) if isinstance(x, ast.Assign) and any(isinstance(t, ast.Subscript) and isinstance(t.value, ast.Name)
+                                                                                                             and t.value.id == nm for t in x.targets)]
+                        empties = all(isinstance(e, (ast.List, ast.Dict, ast.Tuple)) and not (getattr(e, 'elts', None) or getattr(e, 'keys', None)) or
+                                      (isinstance(e, ast.Call) and dotted(e.func) in ('list', 'dict', 'OrderedDict') and not e.args) for e in exprs[1:])
+                        through = bool(fills) and empties and all(any(id(x) in callnodes for x in ast.walk(e)) for e in fills)
+                    ctx.check(through, f'{f.qualname}:every returned value went through member.{meth}', r, f'`{src(r.value)}` contains the member call',
+                              f'`return {src(r.value)}` hands the elements on without member.{meth}: for members whose transport form differs from the internal one '
+                              '(ScaledInteger is a HasUnit type too, blobs, enums) the node emits / accepts values in the wrong representation', f)
             wrong = [(c, a) for c, a in calls if a != meth]
             ctx.check(not wrong, construct, f.node, f'{len(calls)} member call(s), all .{meth}',
                       f'{cname}.{meth} calls `{src(wrong[0][0]) if wrong else ""}` on its member datatype: a nested blob / scaled / '
